@@ -58,7 +58,8 @@ func c19BodyEntry(t MRTType, s uint16) *c19lib.Entry {
 func c19SplitEntry(atEOF bool) *c19lib.Entry {
 	name := fmt.Sprintf("mrt.SplitMrt[atEOF=%v]", atEOF)
 	return &c19lib.Entry{
-		Name: name,
+		Name:  name,
+		Group: "mrt.SplitMrt",
 		Run: func(x *c19lib.Checker, data []byte) c19lib.Outcome {
 			adv, tok, err := SplitMrt(data, atEOF)
 			if adv < 0 || adv > len(data) {
